@@ -13,7 +13,9 @@ from .index import Program, FuncInfo, ClassInfo
 from .typesys import Types
 
 FRESH = "FRESH"
-FRESH_SOURCES = {"uuid.uuid4", "uuid.uuid1", "secrets.token_hex", "secrets.token_bytes", "random.getrandbits",
+# sources of a value that is new for every call. The module-level functions of `random` are not among them: they draw from
+# the generator the application seeds (random.seed(n) twice gives the same "fresh" values twice)
+FRESH_SOURCES = {"uuid.uuid4", "uuid.uuid1", "secrets.token_hex", "secrets.token_bytes", "secrets.token_urlsafe", "secrets.randbits", "os.urandom",
                  "builtins.object", "itertools.count"}
 
 
